@@ -15,7 +15,7 @@ ID = "C04"
 LEVEL = "translation_validation"
 PROPS_FILE = "C04.v"
 RUN_MODULE = "RunC04"
-TRANSLATOR_UNITS = []
+TRANSLATOR_UNITS = ["ir"]
 SHARD = 40
 RULE = ("designs: Module-DSL programs over the C01 expression generator; per design 3-9 signals (width 0..6, signed/unsigned, "
         "random init, some reset_less), roles input / undriven / driven in 1-2 segments (whole, partial with undriven gaps, "
